@@ -56,6 +56,29 @@ func (e *Engine) loModel(fr *frame, ins ssa.Instruction, name string, fn *ssa.Fu
 			}
 		}()
 		return res, reach, true
+	case "github.com/samber/lo.Find":
+		// Find(collection []T, predicate func(T) bool) (T, bool): the first element satisfying the predicate
+		use()
+		s := args[0].(SliceVal)
+		fv, ok := args[1].(FuncVal)
+		if !ok {
+			return nil, reach, false
+		}
+		et := under(fn.Signature.Params().At(0).Type()).(*types.Slice).Elem()
+		found := e.sc.declare("find_ok", SBool)
+		idx := e.sc.declare("find_idx", SI64)
+		elem := elemAt(s, et, idx)
+		pAt := e.scalar(callCB(fv, []Val{elem})).T
+		e.sc.assume(implies(found, and(app("bvsle", bvLit(0, 64), idx), app("bvslt", idx, s.Len), pAt)))
+		// nothing before idx (or nothing at all) satisfies the predicate
+		k := e.sc.freshName("fk")
+		e.sc.binders = append(e.sc.binders, binder{k, SI64})
+		pk := e.scalar(callCB(fv, []Val{elemAt(s, et, k)})).T
+		e.sc.binders = e.sc.binders[:len(e.sc.binders)-1]
+		upper := ite(found, idx, s.Len)
+		e.sc.add(fmt.Sprintf("(assert (forall ((%s %s)) %s))", k, SI64, implies(and(app("bvsle", bvLit(0, 64), k), app("bvslt", k, upper)), not(pk))))
+		res := e.iteVal(found, elem, e.zeroVal(et))
+		return TupleVal{res, Sc{found, SBool}}, reach, true
 	case "github.com/samber/lo.Contains":
 		// Contains(collection []T, element T) bool
 		use()
